@@ -43,8 +43,15 @@ def do_op(c, kind, k, v):
 
 def ob_block(w, P):
     """a block of 1-2 operations that raises after a symbolic number of them (or completes)"""
-    x = Ctx(w, P, min_file_size=0 if 'setf' in P['ops'] else 2 ** 15)
+    x = Ctx(w, P, min_file_size=0 if ('setf' in P['ops'] or P.get('prelude')) else 2 ** 15)
     c = x.c
+    if P.get('prelude'):
+        # an ordinary committed write of a file-backed value through the same handle, before the block: state kept in
+        # the object between calls must not leak into the next transaction
+        kp = x.s.v_int('prelude_key', -2 ** 63, 2 ** 63 - 1)
+        c.set(kp, b'prelude-value')
+        x.T0 = x.s.snapshot()
+        flag('prelude')
     ops = P['ops'].split('+')
     nested = P.get('nested', False)
     if 'push' in ops:
@@ -166,6 +173,8 @@ def jobs(tier):
             add('ob_block', 'C06,C08', weight=N * 2, must=['block_raised'], N=N, ops=ops, nested=True, no_cull=True)
         add('ob_block', 'C06,C08', weight=N * 3, N=N, ops='setf+pop', policy='least-recently-stored')
         add('ob_block', 'C06,C08', weight=N * 2, must=['block_raised'], N=N, ops='set+delete', exc='base', no_cull=True)
+        add('ob_block', 'C06,C08', weight=N * 2, must=['block_raised', 'prelude'], N=N, ops='delete', prelude=True, no_cull=True)
+        add('ob_block', 'C06,C08', weight=N * 2, must=['block_raised', 'prelude'], N=N, ops='set+pop', prelude=True, no_cull=True)
         add('ob_block', 'C06,C08', weight=N * 2, must=['block_raised'], N=N, ops='setf', exc='base', nested=True, no_cull=True)
         for who in ('handle', 'thread'):
             add('ob_block_isolation', 'C06,C05', weight=N * 2, must=['intruded_inside'], N=N, who=who)
